@@ -7,6 +7,8 @@ import (
 	"encoding/base64"
 	"encoding/json"
 	"fmt"
+	"math"
+	"math/big"
 	"strings"
 	"sync"
 	"time"
@@ -119,7 +121,9 @@ func c08Deviations() []reqDev {
 	add("jws-cty-empty", "cty", "jws", func(r *reqSpec) { r.cty = "" })
 	add("jws-cty-without-a-slash(json)", "cty", "jws", func(r *reqSpec) { r.cty = "json" })
 	add("jws-cty-without-a-slash(vnd.cncf.notary.payload.v1+json)", "cty", "jws", func(r *reqSpec) { r.cty = "vnd.cncf.notary.payload.v1+json" })
-	add("cty-with-parameters-and-upper-case", "cty", "", func(r *reqSpec) { r.cty = "Application/Vnd.CNCF.Notary.Payload.V1+JSON; charset=UTF-8; profile=\"x y\"" })
+	add("cty-with-parameters-and-upper-case", "cty", "", func(r *reqSpec) {
+		r.cty = "Application/Vnd.CNCF.Notary.Payload.V1+JSON; charset=UTF-8; profile=\"x y\""
+	})
 	add("cty-300-chars", "cty", "", func(r *reqSpec) { r.cty = "application/" + strings.Repeat("x", 288) })
 	add("cty-non-ascii", "cty", "", func(r *reqSpec) { r.cty = "text/plaïn; charset=\"ütf-8\" 😀" })
 	// signing times
@@ -147,7 +151,11 @@ func c08Deviations() []reqDev {
 		v any
 		c bool // COSE only
 	}{{"string", "v", false}, {"int", 42, false}, {"negative", -42, false}, {"float", 1.5, false}, {"bool", false, false}, {"null", nil, false}, {"array", []any{"a", 2, nil}, false},
-		{"map", map[string]any{"k": []any{1, 2}}, false}, {"nested", []any{map[string]any{"a": map[string]any{"b": "c"}}}, false}, {"bytes", []byte{1, 2, 3}, true}, {"int64-2^40", int64(1) << 40, false}}
+		{"map", map[string]any{"k": []any{1, 2}}, false}, {"nested", []any{map[string]any{"a": map[string]any{"b": "c"}}}, false}, {"bytes", []byte{1, 2, 3}, true}, {"int64-2^40", int64(1) << 40, false},
+		// integers outside int64 as big integers (written as plain CBOR integers down to -2^64, as bignums beyond); unsigned Go integers
+		// above the int64 range cannot be read back by the library and are not requests to sign (C16)
+		{"uint64-2^63-1", uint64(math.MaxInt64), true},
+		{"bigint--2^64", *new(big.Int).Neg(new(big.Int).Lsh(big.NewInt(1), 64)), true}, {"bigint-3*2^70", *new(big.Int).Lsh(big.NewInt(3), 70), true}}
 	for _, v := range vals {
 		v := v
 		f := ""
